@@ -82,9 +82,18 @@ Theorem c11_startup_truncated : forall a b c d r, 4 <= i32_of a b c d -> blen r 
 Proof. exact startup_more. Qed.
 Print Assumptions c11_startup_truncated.
 
-Theorem c11_startup_params_panic_iff : forall s, s <> [] -> (parse_params s = Panic <-> last s 1%N <> 0%N).
-Proof. exact parse_params_panic_iff. Qed.
-Print Assumptions c11_startup_params_panic_iff.
+Theorem c11_startup_params_never_panic : forall s, parse_params s <> Panic.
+Proof. exact parse_params_never_panic. Qed.
+Print Assumptions c11_startup_params_never_panic.
+
+Theorem c11_startup_params_unterminated : forall s, s <> [] -> ~ In 0%N s -> parse_params s = Err.
+Proof. exact parse_params_unterminated. Qed.
+Print Assumptions c11_startup_params_unterminated.
+
+Theorem c11_startup_params_value_unterminated : forall name v, name <> [] -> ~ In 0%N name -> ~ In 0%N v ->
+  parse_params (name ++ 0%N :: v) = Err.
+Proof. exact parse_params_value_unterminated. Qed.
+Print Assumptions c11_startup_params_value_unterminated.
 
 Theorem c11_password_len_overflow : forall chk a b d e r, i32_of a b d e < -2147483644 ->
   read_password chk (112%N :: a :: b :: d :: e :: r) = if chk then PwPanic else PwMore.
@@ -286,5 +295,8 @@ Example ex_ext_copy_copydone : classify (handle_bytes (o_plain true) (InCopy fal
 (* admin: non-Query ends the session, Query with empty body panics *)
 Example ex_admin : fin_of (handle_bytes (o_plain true) AdminIdle [80;0;0;0;4]%N []) = KErr /\ fin_of (handle_bytes (o_plain true) AdminIdle [81;0;0;0;4]%N []) = KPanic.
 Proof. vm_compute. split; reflexivity. Qed.
+(* startup parameters without a terminator are refused, not a panic, since 5c1953d; an empty value is accepted *)
+Example ex_params_unterminated : fin_of (handle_bytes (o_plain true) PreStartup [0;0;0;14; 0;3;0;0; 117;115;101;114;0; 117]%N []) = KErr. Proof. reflexivity. Qed.
+Example ex_params_empty_value : parse_params [117;115;101;114;0; 0; 100;98;0; 120;0; 0]%N = Ok [([117;115;101;114], []); ([100;98], [120])]%N. Proof. reflexivity. Qed.
 (* pre-auth: a wrong password is answered and ends the task; nothing but replies happened *)
 Example ex_wrong_password : r_effs (handle_bytes (o_plain true) (AwaitPw false) [112;0;0;0;5;0]%N []) = [FxReply RWrongPw]. Proof. reflexivity. Qed.
